@@ -22,6 +22,26 @@ Theorem C16_weight_even : forall (k0 k1 k2 : Z) ds cutoff order,
   (weight [(- k0)%Z; (- k1)%Z; (- k2)%Z] ds cutoff order == weight [k0; k1; k2] ds cutoff order)%Q.
 Proof. exact weight_even. Qed.
 
+(** the gain is the stated Butterworth formula 1 / (1 + (|f| / cutoff)^(2 order)) with |f|^2 = sum (k_i / d_i)^2 (cycles per pixel) ... *)
+Theorem C16_weight_formula : forall (k0 k1 k2 d0 d1 d2 : Z) cutoff order, d0 <> 0 -> d1 <> 0 -> d2 <> 0 -> ~ (cutoff == 0)%Q ->
+  (weight [k0; k1; k2] [d0; d1; d2] cutoff order == 1 / (1 + qpow (freq2 k0 k1 k2 d0 d1 d2 / (cutoff * cutoff)) (Z.to_nat order)))%Q.
+Proof. exact weight_formula. Qed.
+
+(** ... so it is exactly one half at |f| = cutoff whatever the order ... *)
+Theorem C16_weight_half_at_cutoff : forall (k0 k1 k2 d0 d1 d2 : Z) cutoff order, d0 <> 0 -> d1 <> 0 -> d2 <> 0 -> ~ (cutoff == 0)%Q ->
+  (freq2 k0 k1 k2 d0 d1 d2 == cutoff * cutoff)%Q -> (weight [k0; k1; k2] [d0; d1; d2] cutoff order == 1 # 2)%Q.
+Proof. exact weight_half. Qed.
+
+(** ... and never increases with |f| (low-pass) *)
+Theorem C16_weight_monotone : forall (k0 k1 k2 k0' k1' k2' d0 d1 d2 : Z) cutoff order,
+  d0 <> 0 -> d1 <> 0 -> d2 <> 0 -> ~ (cutoff == 0)%Q ->
+  (freq2 k0 k1 k2 d0 d1 d2 <= freq2 k0' k1' k2' d0 d1 d2)%Q ->
+  (weight [k0'; k1'; k2'] [d0; d1; d2] cutoff order <= weight [k0; k1; k2] [d0; d1; d2] cutoff order)%Q.
+Proof. exact weight_monotone. Qed.
+
+Example C16_weight_half_nonvacuous : (freq2 2 0 0 8 8 8 == (1#4) * (1#4))%Q /\ (weight [2%Z; 0%Z; 0%Z] [8%Z; 8%Z; 8%Z] (1#4) 3 == 1 # 2)%Q.
+Proof. split; vm_compute; reflexivity. Qed.
+
 Theorem C16_shape : forall shape cutoff, length shape = 3%nat -> lp_passes_shape_utils = true ->
   out_shape lp_passes_shape_utils bw_limit_utils shape cutoff = shape /\
   out_shape lp_passes_shape_backend bw_limit_backend shape cutoff = shape.
@@ -51,3 +71,6 @@ Print Assumptions C16_shape.
 Print Assumptions C16_shape_anchor.
 Print Assumptions C16_two_impls.
 Print Assumptions C16_identity_guard.
+Print Assumptions C16_weight_formula.
+Print Assumptions C16_weight_half_at_cutoff.
+Print Assumptions C16_weight_monotone.
